@@ -80,8 +80,41 @@ def json_texts(g, tier):
     return texts
 
 
+CLI_CWD = None
+
+
+def hostile_cwd(texts):
+    """a working directory holding a file named like every short argument text (each containing other JSON): the command line takes
+    JSON texts, and whatever happens to exist in the current directory must not matter"""
+    d = os.path.join(jl.BUILD, "tmp", "cwd-%d" % os.getpid())
+    os.makedirs(d, exist_ok=True)
+    names = set(["7", "true", "null", "1", "0", "\"notes\"", "[1]", "{}", "rule.json", "data.json", "-", "--"])
+    for a, b in texts:
+        for t in (a, b):
+            if 0 < len(t.encode("utf-8", "replace")) <= 200 and "/" not in t and "\x00" not in t and t not in (".", ".."): names.add(t)
+    for nm in names:
+        try:
+            with open(os.path.join(d, nm), "w", encoding="utf-8", errors="replace") as f: f.write("\"@from-a-file\"")
+        except OSError:
+            pass
+    return d
+
+
 def run_cli(binary, logic, data, mode, timeout=20):
-    """mode: 'arg' | 'stdin' | 'dash'; returns (stdout lines, exit status, panicked)"""
+    """mode: 'arg' | 'stdin' | 'dash' | 'argfile' (as 'arg', standard output being a regular file); returns (stdout lines, exit status, panicked)"""
+    if mode == "argfile":
+        import tempfile
+        with tempfile.NamedTemporaryFile(dir=os.path.join(jl.BUILD, "tmp"), delete=True) as tf:
+            try:
+                p = subprocess.run([binary, "--", logic, data], input=b"", stdout=tf, stderr=subprocess.PIPE, timeout=timeout, cwd=CLI_CWD)
+            except subprocess.TimeoutExpired:
+                return (["<hang>"], None, False)
+            except (OSError, ValueError):
+                return None
+            tf.seek(0); out = tf.read().decode("utf-8", "replace")
+        lines = out.split("\n")
+        if lines and lines[-1] == "": lines.pop()
+        return (lines, p.returncode, b"panicked" in p.stderr or (p.returncode is not None and p.returncode < 0) or p.returncode in (101, 134))
     if mode == "arg":
         cmd = [binary, "--", logic, data]; inp = b""
     elif mode == "stdin":
@@ -89,7 +122,7 @@ def run_cli(binary, logic, data, mode, timeout=20):
     else:
         cmd = [binary, "--", logic, "-"]; inp = data.encode("utf-8")
     try:
-        p = subprocess.run(cmd, input=inp, stdout=subprocess.PIPE, stderr=subprocess.PIPE, timeout=timeout)
+        p = subprocess.run(cmd, input=inp, stdout=subprocess.PIPE, stderr=subprocess.PIPE, timeout=timeout, cwd=CLI_CWD)
     except subprocess.TimeoutExpired:
         return (["<hang>"], None, False)
     except (OSError, ValueError) as e:      # e.g. NUL byte in an argument: not expressible on a command line
@@ -150,8 +183,12 @@ def run_c18(ex, g, tier):
         modes = ["arg", "stdin", "dash"] if dt != "-" else ["stdin", "dash"]
         if len(dt) > 100000: modes = ["stdin", "dash"]
         if dt == "": modes = ["stdin", "dash", "arg"]
+        if "arg" in modes and ("log" in rt or i % 7 == 0): modes = modes + ["argfile"]
         for m in modes:
             jobs.append((i, m))
+    global CLI_CWD
+    os.makedirs(os.path.join(jl.BUILD, "tmp"), exist_ok=True)
+    CLI_CWD = hostile_cwd(texts)
     with concurrent.futures.ThreadPoolExecutor(max_workers=16) as pool:
         results = list(pool.map(lambda j: run_cli(binary, texts[j[0]][0], texts[j[0]][1], j[1]), jobs))
     first_ok = {}
@@ -214,6 +251,8 @@ def run_c18(ex, g, tier):
         if (rc == 0) != want_ok or (want_ok and lines != want_lines):
             ex.violate("chaining: second invocation on the piped output differs from evaluating the second rule on the parsed output",
                        "cli " + json.dumps({"logic": c[0], "data": c[1], "mode": "stdin"}), "%s exit=%s" % (lines[:4], rc), "%s exit %s" % (want_lines[:4], "0" if want_ok else "!=0"))
+    import shutil
+    shutil.rmtree(CLI_CWD, ignore_errors=True); CLI_CWD = None
     # NOTE (false alarm removed): an earlier version also demanded parse(print(v)) == v of serde_json. The property does not: chaining is
     # stated against "the parsed output of the first" invocation, whatever the parser makes of it; and serde_json 1.0.151 without its
     # `float_roundtrip` feature does NOT re-read every float it prints (e.g. 2.5959450144065498e-306 comes back one ulp lower). See DESIGN.md §15.5.
@@ -247,6 +286,16 @@ for raw in sys.stdin:
             kw = {}
             if t.get("de"): kw["deserializer"] = custom_de
             res = jsonlogic_rs.apply_serialized(*args, **kw)
+        if kind != "mutate":
+            # the caller edits what it was given back, then asks the same question again (equal, fresh arguments): same answer expected
+            first = json.dumps(res, sort_keys=True)
+            if isinstance(res, list): res.append("@edited"); res.reverse()
+            elif isinstance(res, dict): res["@edited"] = 1
+            t2 = json.loads(raw)
+            args = [t2["value"]] + ([t2["data"]] if "data" in t2 else [])
+            res = (jsonlogic_rs.apply if kind == "apply" else jsonlogic_rs.apply_serialized)(*args, **kw)
+            if json.dumps(res, sort_keys=True) != first:
+                print("differs second identical call after the first result was edited in place returned " + json.dumps(res, sort_keys=True)[:200], flush=True); continue
         print("value " + json.dumps(res, sort_keys=True), flush=True)
     except BaseException as e:
         print("exc " + ("ValueError" if isinstance(e, ValueError) else type(e).__name__), flush=True)
@@ -430,8 +479,13 @@ def boundary_sample(ex, lines, n=60):
     for i, (l, r, d, rt, dt) in enumerate(vals):
         jobs.append((i, "stdin"))
         if len(rt) + len(dt) < 100000 and dt != "-": jobs.append((i, "arg"))
+    global CLI_CWD
+    os.makedirs(os.path.join(jl.BUILD, "tmp"), exist_ok=True)
+    CLI_CWD = hostile_cwd([(v[3], v[4]) for v in vals])
     with concurrent.futures.ThreadPoolExecutor(max_workers=16) as pool:
         res = list(pool.map(lambda j: run_cli(binary, vals[j[0]][3], vals[j[0]][4], j[1]), jobs))
+    import shutil
+    shutil.rmtree(CLI_CWD, ignore_errors=True); CLI_CWD = None
     for (i, mode), out in zip(jobs, res):
         if out is None: continue
         ex.evaluations += 1
